@@ -375,6 +375,14 @@ Theorem C13_P_b_sound :
 Proof. exact P_b_sound. Qed.
 Print Assumptions C13_P_b_sound.
 
+(* ... and what `agree` establishes: on a case where it is true the observed outputs are the
+   model's, so the theorems about [run] / [run_state] speak about what the implementation did. *)
+Theorem C13_agree_sound :
+  forall c : case,
+    agree c = true -> c_outs c = run (lookup_parse (c_parse c)) (c_cfg c) (c_ops c).
+Proof. exact agree_sound. Qed.
+Print Assumptions C13_agree_sound.
+
 (* ------------------------------------------------------------------------------------------- *)
 (* Non-vacuity. *)
 Open Scope string_scope.
